@@ -396,12 +396,58 @@ def is_nontrivial(case, specs):
     return False
 
 
+def run_trunc_case(res, case):
+    """Chunk-relative export on a window that cuts the 3' end of the transcript (5' end intact).  Judged: GFF3 syntax and
+    ID/Parent/order rules; exon and CDS rows = source blocks clipped to the window and shifted; phase of every CDS row (all kept
+    rows keep their 5' end, so the phase is the source phase).  Not judged: gene/transcript rows, attributes.  A documented
+    refusal of the export is accepted."""
+    spec, genome, (_, a, b) = case["spec"], case["genome"], case["parent"]
+    o = lib.outcome(lambda: export([build(spec, case["parent"], genome)], False, False, True))
+    res.trans()
+    if o[0] != "ok":
+        if lib.is_documented_exc(o[2]):
+            res.note("export", "trunc-refused:" + o[1])
+        else:
+            res.deviation("leg1", case, f"{o[1]}: {o[2]}"[:200], "GFF3 text or documented refusal", sig="trunc-export-raises-" + o[1])
+        return
+    f1 = o[1][0]
+    res.note("export", "trunc-chunk")
+    res.state(("F", f1))
+    res.nontriv((spec, a, b))
+    g = leg1_file(res, case, f1, None, None, None, a, tag="T1")
+    if g is None:
+        return
+    exp = []
+    for gene in spec["genes"]:
+        for t in gene["transcripts"]:
+            st = M.STRAND_SYM[t["strand"]]
+            for s0, e0 in zip(t["exon_starts"], t["exon_ends"]):
+                if s0 < b and e0 > a:
+                    exp.append(("exon", max(s0, a) + 1 - a, min(e0, b) - a, st, "."))
+            for s0, e0, f in zip(t.get("cds_starts") or [], t.get("cds_ends") or [], t.get("cds_frames") or []):
+                if s0 < b and e0 > a:
+                    cut5 = (s0 < a) if st == "+" else (e0 > b)
+                    exp.append(("CDS", max(s0, a) + 1 - a, min(e0, b) - a, st, "?" if cut5 else M.PHASE_OF_FRAME[f]))
+    obs = [(r["type"], r["start"], r["end"], r["strand"], r["phase"]) for r in g["rows"] if r["type"] in ("exon", "CDS")]
+    # a row whose 5' end is cut is not judged on its phase
+    unjudged = {e[:4] for e in exp if e[4] == "?"}
+    obs = [o_[:4] + ("?",) if o_[:4] in unjudged else o_ for o_ in obs]
+    res.trans()
+    if sorted(obs) != sorted(exp):
+        co, ce = collections.Counter(obs), collections.Counter(exp)
+        only_phase = collections.Counter(x[:4] for x in obs) == collections.Counter(x[:4] for x in exp)
+        res.deviation("leg1", case, sorted((co - ce).elements()), sorted((ce - co).elements()),
+                      sig="T1-trunc-" + ("phase" if only_phase else "rows"))
+
+
 def run_case(res, case):
     specs = case.get("specs") or [case["spec"]]
     genomes = case["genome"] if isinstance(case["genome"], list) else [case["genome"]]
     parent, crc, fasta, rra, legs = case["parent"], case["crc"], case["fasta"], case["rra"], case["legs"]
     is_chunk = isinstance(parent, list)
     off = parent[1] if (is_chunk and not crc) else 0
+    if case.get("trunc"):
+        return run_trunc_case(res, case)
     colls = [build(s, parent, gn) for s, gn in zip(specs, genomes)]
     refusal = expected_refusal(case, specs)
     o = lib.outcome(export, colls, fasta, crc, rra)
